@@ -69,6 +69,7 @@ def manifest_text(cfg, kind):
     t.append('[lib]\npath = "%s/harness/src/lib.rs"\n' % VERIF)
     if kind == "native":
         t.append('[[bin]]\nname = "replay"\npath = "%s/harness/replay/main.rs"\n' % VERIF)
+        t.append('[[bin]]\nname = "c14dump"\npath = "%s/harness/replay/c14dump.rs"\n' % VERIF)
     t.append('[dependencies]')
     t.append('bio-seq = { path = "%s/bio-seq", features = ["translation", "extra_codecs", "serde"] }' % REPO)
     t.append('bitvec = "1"\nbincode = "1.3"\nserde = "1"\n')
@@ -470,17 +471,17 @@ def kani_concrete_values(cfg, feature, harness, timeout):
     return tests, out
 
 
-def build_replay(profile_release):
+def build_replay(profile_release, binname="replay"):
     ws = ensure_ws("daon", "native")
     with WsLock(ws):
         force_rebuild_if_repo_changed(ws)
-        cmd = ["cargo", "build", "--offline", "--features", "all", "--bin", "replay"]
+        cmd = ["cargo", "build", "--offline", "--features", "all", "--bin", binname]
         if profile_release:
             cmd.append("--release")
         rc, out = sh(cmd, cwd=ws)
         if rc != 0:
             return None, out
-        return os.path.join(ws, "target", "release" if profile_release else "debug", "replay"), out
+        return os.path.join(ws, "target", "release" if profile_release else "debug", binname), out
 
 
 def run_replay(binary, harness, vals, timeout=120):
